@@ -27,6 +27,7 @@ def main():
     ctx = CheckContext(a.prop, a.tier, seed)
     try:
         mod.build(ctx)
+        _public_calls(ctx)
         rc = ctx.finish()
     except Exception as e:
         traceback.print_exc()
@@ -57,11 +58,17 @@ def main():
     sys.exit(rc)
 
 
+def _public_calls(ctx):
+    from contracts import common_forms
+    common_forms.public_calls(ctx)
+
+
 def generic_replay(mod, doc, prop, seed):
     """Re-run the whole check and report whether the named obligation still fails."""
     from pyvc.checkctx import CheckContext
     ctx = CheckContext(prop, "quick", doc.get("seed", seed))
     mod.build(ctx)
+    _public_calls(ctx)
     rc = ctx.finish()
     still = doc["obligation"] in ctx.violations
     print(f"replay: obligation {doc['obligation']} {'still fails' if still else 'no longer fails'}")
